@@ -435,9 +435,14 @@ func (c *Ctx) offsetZeroWhenSkipped(fn *ssa.Function, section string) (bool, str
 // trailerAdjacent: after docChunkCoder.Write() the next use of the output
 // writer is Count() whose value becomes the stored index offset.
 func trailerAdjacent(c *Ctx, fn *ssa.Function, site ssa.CallInstruction) (bool, string) {
-	// follow the nil-error successor chain from the site until a Count() call on a countHashWriter
-	b := site.Block()
-	start := instrIndex(site) + 1
+	return countIsNextWriterUse(c, site.Block(), instrIndex(site)+1, 0)
+}
+
+// countIsNextWriterUse: following the nil-error successor chain from
+// instruction start of block b, the next use of an output writer is Count() —
+// directly, or as the first writer use of an in-package helper the writer is
+// handed to (the index writing extracted into a function).
+func countIsNextWriterUse(c *Ctx, b *ssa.BasicBlock, start int, depth int) (bool, string) {
 	for steps := 0; steps < 12 && b != nil; steps++ {
 		for _, ins := range b.Instrs[start:] {
 			ci, ok := ins.(ssa.CallInstruction)
@@ -450,6 +455,11 @@ func trailerAdjacent(c *Ctx, fn *ssa.Function, site ssa.CallInstruction) (bool, 
 			}
 			for _, a := range ci.Common().Args {
 				if isWriterLike(a.Type()) {
+					if sc != nil && c.inRoot(sc) && sc.Blocks != nil && depth < 2 {
+						if ok, _ := countIsNextWriterUse(c, sc.Blocks[0], 0, depth+1); ok {
+							return true, ""
+						}
+					}
 					return false, calleeFullName(ci.Common()) + " at " + c.pos(ins.Pos()) + " writes between the chunk trailer and the capture of the stored index offset"
 				}
 			}
